@@ -13,7 +13,7 @@ def _fails(res, prop, key):
     return bool(res.get("ok")) and any(findings.key_of(prop, v) == key for v in res["violations"])
 
 
-def minimise(pool, prop, plan, hashseed, tier, key, budget_s=90.0, max_tries=400):
+def minimise(pool, prop, plan, hashseed, tier, key, budget_s=90.0, max_tries=2000):
     t0 = time.time()
     tried = 0
     best = copy.deepcopy(plan)
